@@ -26,9 +26,9 @@ SPEC = {
     "lean": ["SnowModel.Props.C16", "SnowModel.Props.C16Bridge"],
     "pins": ["MappingGen"],
     "harness": "harness.c16",
-    "technique": "Lean 4 theorems over an executable model of the mapping generator (sorter termination by measure, membership/permutation, topological order on acyclic graphs, step cover, fields/lookups partition, after-directive soundness, totality refuted by D14, continuation invariance for the pinned access kind (D05 repaired by a fix: commit)) + pins regenerated from the AST + differential correspondence at function level and end to end",
+    "technique": "Lean 4 theorems over an executable model of the mapping generator (sorter termination by measure, membership/permutation, topological order on acyclic graphs, step cover, fields/lookups partition, after-directive soundness, totality (D14 repaired by a fix: commit), continuation invariance for the pinned access kind (D05 repaired by a fix: commit)) + pins regenerated from the AST + differential correspondence at function level and end to end",
     "level_text": "Machine-checked proof, for every table list, dependency list and load_after declaration list, that the model of sort_dependencies terminates within its fuel and returns exactly the visible tables (a permutation without declarations, possibly with repeats with them), parents first when the graph is acyclic; that load steps cover every (table, update key) exactly once; that fields and lookups partition the visible fields; and that every lookup whose target has a first step not earlier carries an after: directive naming the target's last step. The model is tied to the source by bridging lemmas over constants, conditions and wiring regenerated from the AST on every run and by differential runs of the real mapping generator.",
-    "level_note": "Trusted: Lean kernel; py2lean; the harness; CPython dict/list/sort semantics (stable sort, insertion-ordered dict), str.lower on ASCII names. mapping_total is refuted (D14) and kept as a _partial theorem with an explicit hypothesis; continuation invariance holds for the access kind pinned from the repaired source (mapping_continuation_invariant_pinned), the refutation for the old getattr access is kept as an explicitly parameterised fact; fields_lookups_partition holds at full strength since fix 8e9f95d (a record-type column holding references is a lookup only). Run-time discovery of dependencies (which rows hold references) is covered by the end-to-end correspondence and the row oracle, not by a theorem.",
+    "level_note": "Trusted: Lean kernel; py2lean; the harness; CPython dict/list/sort semantics (stable sort, insertion-ordered dict), str.lower on ASCII names. mapping_total holds at full strength since fix 7f47b5f (a lookup into a table without load step is skipped by add_after_statements); continuation invariance holds for the access kind pinned from the repaired source (mapping_continuation_invariant_pinned), the refutation for the old getattr access is kept as an explicitly parameterised fact; fields_lookups_partition holds at full strength since fix 8e9f95d (a record-type column holding references is a lookup only). Run-time discovery of dependencies (which rows hold references) is covered by the end-to-end correspondence and the row oracle, not by a theorem.",
     "assumptions": [
         "Python list.sort is stable; dict preserves insertion order",
         "table and field names are ASCII (str.lower modelled by Char.toLower)",
@@ -341,11 +341,8 @@ def oracle_mapping(rep, case, tables, refs, out, level):
             # "loaded by": the steps whose sf_object is the target (PersonContact rows are loaded into Contact)
             tsteps = [j for j, s2 in enumerate(steps) if s2["sf_object"] == tg]
             if not tsteps:
-                rep.violation(
-                    "C16:lookup-target-without-step",
-                    f"step {s['name']!r}: lookup {l['field']!r} targets {tg!r} which has no load step",
-                    case, None, l)
-                return
+                # the target (a hidden `__` table) is loaded by no step: the ordering clause says nothing
+                rep.count(level + ":lookup-to-unloaded-target")
             if len(tsteps) == 1:
                 j = tsteps[0]
                 if not (j < i or l["after"] == steps[j]["name"]):
@@ -400,7 +397,7 @@ def gen_func_case(rng):
                 else:
                     cands = names
                 cands = list(cands)
-                if rng.random() < 0.06:
+                if rng.random() < 0.15:
                     cands = cands + ["__Hid", "Ghost"]
                 if not cands:
                     continue
